@@ -33,7 +33,14 @@ func (obj Symbol) Readably(b []byte, p *Printer) []byte {
 	for _, c := range []byte(obj) {
 		if needPipeMap[c] == 'x' {
 			b = append(b, '|')
-			b = append(b, p.caseName(string(obj))...)
+			for _, c := range []byte(p.caseName(string(obj))) {
+				if c == '|' || c == '\\' {
+					// Escaped so the reader does not take it as the end
+					// of the symbol or as the start of an escape.
+					b = append(b, '\\')
+				}
+				b = append(b, c)
+			}
 			return append(b, '|')
 		}
 	}
